@@ -356,6 +356,14 @@ func (r ImportsReplacer) Cleanup(d data.Data, f *ast.File, newNames []string) er
 			pkgName = filepath.Base(imp)
 		}
 
+		// Nothing refers to a blank or dot import by its name, so
+		// whether it is still needed cannot be seen from the code: it
+		// stays if the patch lists it on the "+" side as well (on a
+		// line that is on both sides, that is).
+		if (importName == "_" || importName == ".") && r.lists(key) {
+			continue
+		}
+
 		// If this import was replaced by an added import, kill it.
 		_, replaced := taken[pkgName]
 		if replaced || !usesNameAsTopLevel(f, pkgName) {
@@ -385,6 +393,16 @@ func (r ImportsReplacer) Cleanup(d data.Data, f *ast.File, newNames []string) er
 	}
 
 	return nil
+}
+
+// lists reports whether the "+" side of the patch has the import.
+func (r ImportsReplacer) lists(key importKey) bool {
+	for _, imp := range r.Imports {
+		if imp.Path == key.Path && imp.NameS == key.Name {
+			return true
+		}
+	}
+	return false
 }
 
 // TODO: This is probably not the best place or method to implement this.
